@@ -84,14 +84,16 @@ def isOneOrZero : Expr → Bool
   | _ => false
 
 /-- the value checks shared by both validators, in the order of the Python (after the emptiness checks on the event
-lists): empty target graph, One()/Zero() population expressions (NotImplementedError), every value None, no domain,
+lists): empty target graph, One()/Zero() population expressions (NotImplementedError), every value None, a valueless
+self-intervened variable (TypeError; unconditional validator only), no domain,
 empty domain graph / order, selection node or cycle in the target graph, a domain graph over other variables, an event
 variable outside the graph, a value that belongs to another variable, then the per-domain checks -/
-def validateCommon (target : MG Name) (domains : List Domain) (eventVars : List Var) (allNone valueMismatch : Bool) :
-    Except Err Unit :=
+def validateCommon (target : MG Name) (domains : List Domain) (eventVars : List Var)
+    (allNone selfNone valueMismatch : Bool) : Except Err Unit :=
   if target.nodes.isEmpty then vErr
   else if domains.any (fun d => isOneOrZero d.pop) then .error (.invalidInput "NotImplementedError")
   else if allNone then vErr
+  else if selfNone then .error (.invalidInput "TypeError")
   else if domains.isEmpty then vErr
   else if domains.any (fun d => d.graph.nodes.isEmpty) then vErr
   else if domains.any (fun d => d.topo.isEmpty) then vErr
@@ -104,10 +106,15 @@ def validateCommon (target : MG Name) (domains : List Domain) (eventVars : List 
 
 def valueMismatch (e : Ctf.Event) : Bool := e.any fun p => match p.2 with | some i => i.name != p.1.name | none => false
 
+/-- check 6.5 of the unconditional validator (after `fix:` 333fa44): a variable that intervenes on itself has no value
+(SIMPLIFY raises `TypeError` on such an event; before the fix it did so after the validator had accepted the event) -/
+def selfNone (e : Ctf.Event) : Bool := e.any fun p => p.2.isNone && Ctf.selfIntervened p.1
+
 /-- `_validate_transport_unconditional_counterfactual_query_input` -/
 def validateU (target : MG Name) (domains : List Domain) (event : Ctf.Event) : Except Err Unit :=
   if event.isEmpty then vErr
-  else validateCommon target domains (event.map (·.1)) (event.all fun p => p.2.isNone) (valueMismatch event)
+  else validateCommon target domains (event.map (·.1)) (event.all fun p => p.2.isNone) (selfNone event)
+    (valueMismatch event)
 
 /-- `_event_from_counterfactuals_strict` (a variable without a value raises `TypeError`) followed by
 `_validate_transport_conditional_counterfactual_query_input` -/
@@ -115,7 +122,8 @@ def validateC (target : MG Name) (domains : List Domain) (outcomes conditions : 
   if (outcomes ++ conditions).any (fun p => p.2.isNone) then .error (.invalidInput "TypeError")
   else if conditions.isEmpty then vErr
   else if outcomes.isEmpty then vErr
-  else validateCommon target domains ((conditions ++ outcomes).map (·.1)) false (valueMismatch (conditions ++ outcomes))
+  else validateCommon target domains ((conditions ++ outcomes).map (·.1)) false false
+    (valueMismatch (conditions ++ outcomes))
 
 /-! ### Algorithm 2, line 3: inconsistent ctf-factors -/
 
